@@ -28,7 +28,7 @@ for n in names:
     resf = os.path.join(d, "result.json")
     res = json.load(open(resf)) if os.path.exists(resf) else {}
     for p in ps:
-        env = dict(os.environ); env["VERIF_REPO"] = repo; env["VERIF_SCRATCH"] = "/var/tmp/verif-scratch-mut"
+        env = dict(os.environ); env["VERIF_REPO"] = repo; env["VERIF_SCRATCH"] = "/var/tmp/verif-scratch-mut"; env["VERIF_NO_REPLAY"] = "1"
         t0 = time.time()
         r = subprocess.run([os.path.join(VERIF, "check"), p, tier, "--no-evidence"], env=env, capture_output=True, text=True)
         lines = [l for l in r.stdout.splitlines() if l.startswith(("VIOLATION", "INCONCLUSIVE", "KNOWN-FINDING", "  harness", "[")) or "FAILED:" in l]
